@@ -131,15 +131,23 @@ def lake_build(targets):
     return rc == 0, out
 
 
+def prop_modules(prop):
+    """the property's theorem files: Props/<prop>.lean and any Props/<prop><Suffix>.lean (same namespace)"""
+    d = os.path.join(LEAN, "Axelar", "Props")
+    files = sorted(f for f in os.listdir(d) if re.fullmatch(re.escape(prop) + r"[A-Za-z]*\.lean", f))
+    return [f[:-5] for f in files]
+
+
 def prop_theorems(prop):
-    path = os.path.join(LEAN, "Axelar", "Props", prop + ".lean")
-    src = open(path).read()
-    bad = []
-    for i, line in enumerate(src.split("\n"), 1):
-        code = line.split("--")[0]
-        if FORBIDDEN.search(code):
-            bad.append(f"{path}:{i}: {line.strip()}")
-    names = re.findall(r"^theorem\s+([A-Za-z0-9_'.]+)", src, re.M)
+    names, bad = [], []
+    for mod in prop_modules(prop):
+        path = os.path.join(LEAN, "Axelar", "Props", mod + ".lean")
+        src = open(path).read()
+        for i, line in enumerate(src.split("\n"), 1):
+            code = line.split("--")[0]
+            if FORBIDDEN.search(code):
+                bad.append(f"{path}:{i}: {line.strip()}")
+        names += re.findall(r"^theorem\s+([A-Za-z0-9_'.]+)", src, re.M)
     return names, bad
 
 
@@ -172,7 +180,8 @@ def audit(prop):
     path = os.path.join(WORK, f"Audit_{prop}.lean")
     extra = surface_theorems(prop)
     with open(path, "w") as f:
-        f.write(f"import Axelar.Props.{prop}\n")
+        for m in prop_modules(prop):
+            f.write(f"import Axelar.Props.{m}\n")
         for m in surface_modules(prop):
             f.write(f"import {m}\n")
         for n in names:
@@ -192,9 +201,9 @@ def audit(prop):
         if full not in results:
             failures.append(f"theorem {full}: no axiom report (does it still build?)")
             continue
-        extra = [a for a in results[full] if a not in ALLOWED_AXIOMS]
-        if extra:
-            failures.append(f"theorem {full}: disallowed axioms {extra}")
+        bad_ax = [a for a in results[full] if a not in ALLOWED_AXIOMS]
+        if bad_ax:
+            failures.append(f"theorem {full}: disallowed axioms {bad_ax}")
         else:
             discharged += 1
     if rc != 0:
@@ -404,7 +413,7 @@ def main(argv):
     ok, out = run_extract()
     if not ok:
         broken.append("translator tools/extract.py cannot follow the source: " + out)
-    ok_build, out = lake_build([f"Axelar.Props.{prop}"] + surface_modules(prop) + ["driver"])
+    ok_build, out = lake_build([f"Axelar.Props.{m}" for m in prop_modules(prop)] + surface_modules(prop) + ["driver"])
     if not ok_build:
         errs = [l for l in out.split("\n") if l.startswith("error")]
         broken.append("lake build Axelar.Props.%s failed: %s" % (prop, " | ".join(errs[:6])))
@@ -427,7 +436,7 @@ def main(argv):
             names = []
     if tier == "thorough" and ok_build:
         with Lock("lake"):
-            rc, out = sh(["lake", "env", "leanchecker", f"Axelar.Props.{prop}"], cwd=LEAN, timeout=3600)
+            rc, out = sh(["lake", "env", "leanchecker"] + [f"Axelar.Props.{m}" for m in prop_modules(prop)], cwd=LEAN, timeout=3600)
         if rc != 0:
             broken.append("leanchecker rejected Axelar.Props.%s: %s" % (prop, out[-300:]))
         else:
